@@ -30,7 +30,7 @@ def main():
             if r.returncode == 3 and 'PATCH-DOES-NOT-APPLY' in r.stdout:
                 outcome = 'stale (patch does not apply to HEAD)'
                 continue
-            rules = sorted(set(re.findall(r'violated: (C\d+\.R\d+)', r.stdout)))
+            rules = sorted(set(re.findall(r'violated: (C\d+\.[RH]\d+[a-z]?)', r.stdout)))
             if r.returncode == 1 and rules:
                 det += rules
                 outcome = 'caught'
